@@ -3,9 +3,11 @@ package c12
 
 import (
 	"bytes"
+	"compress/gzip"
 	"fmt"
 	"image"
 	"image/color"
+	"io"
 	"math"
 	"runtime/debug"
 	"strings"
@@ -481,6 +483,15 @@ var backends = []backend{
 		r.Close()
 		return b.Bytes()
 	}},
+	{"SVG gzip", "svg", func(c *canvas.Canvas) []byte {
+		var b bytes.Buffer
+		o := svg.DefaultOptions
+		o.Compression = gzip.BestSpeed
+		r := svg.New(&b, c.W, c.H, &o)
+		c.RenderTo(r)
+		r.Close()
+		return b.Bytes()
+	}},
 	{"EPS", "ps", func(c *canvas.Canvas) []byte {
 		var b bytes.Buffer
 		o := ps.DefaultOptions
@@ -492,10 +503,22 @@ var backends = []backend{
 	}},
 }
 
+// gunzip returns the decompressed bytes of a gzip stream (RFC 1952), or the input if it is none.
+func gunzip(data []byte) []byte {
+	if len(data) > 2 && data[0] == 0x1f && data[1] == 0x8b {
+		if zr, err := gzip.NewReader(bytes.NewReader(data)); err == nil {
+			if out, err := io.ReadAll(zr); err == nil {
+				return out
+			}
+		}
+	}
+	return data
+}
+
 func interpret(be backend, data []byte) *displayList {
 	switch be.family {
 	case "svg":
-		return interpretSVG(data)
+		return interpretSVG(gunzip(data))
 	case "pdf":
 		return interpretPDF(data)
 	}
@@ -516,7 +539,7 @@ func emitted(be backend, data []byte) string {
 			return "…" + s[i+len("arcn m setmatrix}def"):]
 		}
 	}
-	return string(data)
+	return string(gunzip(data))
 }
 
 // safeRender renders and turns a panic of the back-end into a message.
@@ -660,6 +683,16 @@ func compareLists(r *fw.R, be backend, exp []expItem, act *displayList, ops []re
 				}
 				out = append(out, verdict{class, fmt.Sprintf("%s: %d decidable samples differ, first (%.3f,%.3f): canvas inside=%v, %s inside=%v; style %s; emitted: %s",
 					what, n, q.X, q.Y, eb.get(first), be.name, ab.get(first), styleString(st), a.src)})
+			}
+			// line width of natively stroked items: implied by the region, checked sharply because
+			// the sample grid cannot see errors below the decidability margin
+			if e.role == "stroke" && !fallback && a.widthMM > 0 {
+				mm := matAff(ops[e.op].M)
+				if want := effectiveWidth(mm, st.StrokeWidth); want > 0 {
+					if math.Abs(a.widthMM-want) > 1e-4*want {
+						out = append(out, verdict{"stroke-width-" + fam, fmt.Sprintf("%s: the canvas strokes with an effective width of %.6g mm (width %g x view scale), the %s output with %.6g mm; emitted: %s", what, want, st.StrokeWidth, be.name, a.widthMM, a.src)})
+					}
+				}
 			}
 			// paint
 			if isPS {
@@ -949,10 +982,10 @@ func families(tier string) []fw.Family {
 	main3 := backends[:3]
 	var fs []fw.Family
 
-	// A: every single draw through all five back-end variants
+	// A: every single draw through all six back-end variants (SVG, PDF, PS, PDF uncompressed, SVG gzip, EPS)
 	radA := []int{nS, nP, nV, nC}
 	progA := func(i int64) program { return program{decodeDraw(oracle.Digits(i, radA...))} }
-	fs = append(fs, fw.Family{Name: "A depth 1: style x path x view x coordinate system, 5 back-end variants", N: oracle.Prod(radA...),
+	fs = append(fs, fw.Family{Name: "A depth 1: style x path x view x coordinate system, 6 back-end variants", N: oracle.Prod(radA...),
 		Check: func(i int64, r *fw.R) { checkProgram(r, progA(i), backends, true) },
 		Desc:  func(i int64) string { return progA(i).String() }})
 
@@ -1024,15 +1057,30 @@ func Prop() *fw.Property {
 		},
 		Families: families,
 		KnownPredicates: map[string]func(*fw.Violation) bool{
-			"class-pdf-invalid-operator": func(v *fw.Violation) bool { return v.Class == "pdf-invalid-operator" },
-			"class-paint-alpha-pdf":      func(v *fw.Violation) bool { return v.Class == "paint-alpha-pdf" },
-			"class-paint-colour-ps":      func(v *fw.Violation) bool { return v.Class == "paint-colour-ps" },
-			"class-dash-scaling-fallback": func(v *fw.Violation) bool {
-				return strings.HasPrefix(v.Class, "dash-scaling-fallback-")
+			// PDF: SetFill/SetStroke return early on a cached paint without restoring the shared alpha constant
+			"pdf-alpha-after-cached-paint": func(v *fw.Violation) bool {
+				return v.Class == "paint-alpha-pdf" && (strings.Contains(v.Case, "alpha 0.5") || strings.Contains(v.Case, "gradient")) && strings.Count(v.Case, "DrawPath") >= 2
 			},
-			"class-stroke-outline-evenodd-svg": func(v *fw.Violation) bool { return v.Class == "stroke-outline-evenodd-svg" },
-			"class-ps-units":                   func(v *fw.Violation) bool { return v.Class == "ps-units" },
-			"class-gradient-pdf":               func(v *fw.Violation) bool { return v.Class == "gradient-pdf" || v.Class == "pdf-bad-shading-function" },
+			// PS: setPaint compares the new straight colour with the cached premultiplied one
+			"ps-paint-cache-premultiplied": func(v *fw.Violation) bool {
+				return v.Class == "paint-colour-ps" && strings.Contains(v.Case, "alpha 0.5") && strings.Count(v.Case, "DrawPath") >= 2
+			},
+			// all back-ends: the explicit-outline fallback dashes with lengths not scaled by the stroke width
+			"fallback-dashes-not-scaled-by-width": func(v *fw.Violation) bool {
+				return strings.HasPrefix(v.Class, "dash-scaling-fallback-") && strings.Contains(v.Detail, "dashes [") && !strings.Contains(v.Detail, " width 1 cap")
+			},
+			// SVG: the explicit stroke outline is written with fill-rule="evenodd" when the style's fill rule is EvenOdd
+			"svg-stroke-outline-evenodd": func(v *fw.Violation) bool {
+				return v.Class == "stroke-outline-evenodd-svg" && strings.Contains(v.Case, "EvenOdd")
+			},
+			// PDF: fill and stroke with equal alpha < 1 are painted by one operator (b/B), a knockout group
+			"pdf-fill-stroke-one-operator-alpha": func(v *fw.Violation) bool {
+				return v.Class == "fill-stroke-one-operator-alpha-pdf" && strings.Contains(v.Case, "fill red alpha 0.5 + stroke blue alpha 0.5")
+			},
+			// PS/EPS: millimetres are written as PostScript points
+			"ps-millimetres-as-points": func(v *fw.Violation) bool {
+				return v.Class == "ps-units" && strings.Contains(v.Detail, "BoundingBox: 0 0 40 24")
+			},
 		},
 	}
 }
